@@ -277,6 +277,14 @@ def run_readback(ctx):
         rb("div", lambda: base / t, lambda u: u.name, t, slashfree)
         rb("joinpath", lambda: base.joinpath("k", t), lambda u: u.name, t, slashfree)
         rb("div_rel", lambda: rel / t, lambda u: u.name, t, slashfree)
+        # receivers of every path SHAPE (empty path under an authority, root only, scheme only) and a dot next to the text (the dot
+        # sends '/' and joinpath through their normalising branch)
+        rb("div_emptypath", lambda: URL("http://example.com") / t, lambda u: u.name, t, slashfree)
+        rb("div_emptypath_dotted", lambda: URL("http://example.com") / (t + ".x"), lambda u: u.name, t + ".x", slashfree)
+        rb("joinpath_emptypath_dotted", lambda: URL("http://u@example.com:81").joinpath("v1.0", t), lambda u: u.name, t, slashfree)
+        rb("div_rootpath_dotted", lambda: URL("http://example.com/") / ("a." + t), lambda u: u.name, "a." + t, slashfree)
+        rb("joinpath_query_base_dotted", lambda: URL("http://example.com?q=1#f").joinpath(t + ".tar.gz"), lambda u: u.name, t + ".tar.gz", slashfree)
+        rb("div_scheme_only", lambda: URL("foo:") / (t + ".x"), lambda u: u.name, t + ".x", slashfree)
         nodots = not any(sg in (".", "..") for sg in t.split("/"))
         p = "/" + t
         rb("with_path", lambda: base.with_path(p), lambda u: u.path, p, nodots)
